@@ -15,6 +15,7 @@ import (
 	"testing/synctest"
 
 	"github.com/orda-io/orda/client/pkg/model"
+	"github.com/orda-io/orda/client/pkg/orda"
 	"github.com/orda-io/orda/client/pkg/verifrt"
 	"github.com/orda-io/orda/client/pkg/verifrt/vsync"
 	"github.com/orda-io/orda/server/schema"
@@ -151,6 +152,23 @@ func (m *e2Machine) rawRequest(a pt.Action, errs *[]string, mu *sync.Mutex) {
 		_, err := m.sys.Svc().ProcessClient(gocontext.Background(), model.NewClientMessage(&model.Client{CUID: c.cuid, Alias: "re", Collection: c.coll}))
 		if err != nil {
 			note(fmt.Sprintf("connect: %v", err))
+		}
+	case "txabort":
+		// a transaction whose body issues one operation, then does something that takes its time (a scheduling point:
+		// anything else may run meanwhile), then fails: it is rolled back and leaves nothing to deliver
+		key, _ := splitT(a.T)
+		d := c.dts[key]
+		if d.rep.cnt == nil {
+			note("txabort: counter only")
+			return
+		}
+		err := d.rep.cnt.Transaction("aborted", func(ct orda.CounterInTx) error {
+			ct.IncreaseBy(100)
+			m.sys.Sched.Gate("in-transaction")
+			return fmt.Errorf("the application gives up")
+		})
+		if err == nil {
+			note("txabort: the failing transaction reported no error")
 		}
 	default: // a local operation (realtime clients push it by themselves)
 		key, path := splitT(a.T)
